@@ -133,6 +133,10 @@ int main(int argc, char** argv) {
     for (int w = 0; w < 3; w++) { P.push_back(probe(d, w)); P.push_back(scaled(probe(d, w), 1e100)); P.push_back(scaled(probe(d, w), 1e-100)); }
     P.push_back(std::vector<double>(n, 0.0));
     for (auto& a : P) for (auto& b : P) check_pair(t, a, b, "probe-pair", true);
+    // identity-dominated operands: the identity plus a generator part of relative size 1e-6 ... 1e-15
+    { std::vector<std::vector<double>> Q; for (double g : {1e-6, 1e-9, 1e-12, 1e-15}) for (double c0 : {1.0, -3.5}) { std::vector<double> v = scaled(probe(d, 1), g); v[0] = c0; Q.push_back(v); }
+      Q.push_back(unit(d, 0, 2.0)); Q.push_back(probe(d, 0));
+      for (auto& a : Q) for (auto& b : Q) check_pair(t, a, b, "identity-plus-small-generator-part", false); }
     // derived facts on the probes (cross-check of the oracle itself)
     for (int w1 = 0; w1 < 3; w1++) for (int w2 = 0; w2 < 3; w2++) {
       count("evaluations");
